@@ -5,6 +5,7 @@ import (
 	"net/http"
 	"net/http/httptest"
 	"sync/atomic"
+	"time"
 
 	"github.com/vicanso/elton"
 	"github.com/vicanso/elton/middleware"
@@ -315,6 +316,40 @@ func upstreamReloadE2E(rnd *hx.Rand, k int, sum *hx.Summary) map[string]interfac
 	settle()
 	if v := expect("both sick", "error"); v != nil {
 		return v
+	}
+	// no server healthy: concurrent requests for ONE url through the full chain (cache + proxy) must each get
+	// their 5xx promptly — none may stay parked behind the failed fetch
+	{
+		cache.ResetDispatchers([]config.CacheConfig{{Name: "uc", Size: 100, HitForPass: "5m"}})
+		s := server.NewServer(server.ServerOption{Locations: []string{"ul"}, Cache: "uc"})
+		e := elton.New()
+		e.Use(middleware.NewDefaultError())
+		e.Use(server.NewResponder())
+		e.Use(server.NewCache(s))
+		e.Use(server.NewProxy(s))
+		e.ALL("/*", func(c *elton.Context) error { return nil })
+		codes := make(chan int, 8)
+		for g := 0; g < 6; g++ {
+			go func() {
+				r := httptest.NewRequest("GET", "http://ue.example/all-down", nil)
+				rec := httptest.NewRecorder()
+				e.ServeHTTP(rec, r)
+				codes <- rec.Code
+			}()
+		}
+		script = append(script, "both sick: 6 concurrent GETs of one URL through cache+proxy -> expect six 5xx within 4 s")
+		deadline := time.After(4 * time.Second)
+		for got := 0; got < 6; got++ {
+			select {
+			case c := <-codes:
+				if c < 500 {
+					return fail("both sick, concurrent requests for one URL", "5xx", fmt.Sprint(c))
+				}
+			case <-deadline:
+				return fail("both sick, concurrent requests for one URL", "six 5xx answers within 4 s", fmt.Sprintf("only %d of 6 requests were answered", got))
+			}
+		}
+		cache.ResetDispatchers(nil)
 	}
 	if a.hits.Load()+b.hits.Load() != 6 {
 		return fail("both sick", "no origin contacted", fmt.Sprintf("%d requests reached an origin", a.hits.Load()+b.hits.Load()-6))
